@@ -13,7 +13,10 @@ GRID = cr.small_ratio_grid()
 
 def make_job(rng, idx, quick):
     # the first jobs of every run walk through ALL small-integer ratios (each is planned in its own way); the rest are drawn at random
-    cfg, env = cr.gen_config(rng, rates=GRID[idx] if idx < len(GRID) else None)
+    # a third of the jobs with every datatype / layout on either side (the both-split path of soxr_process drives the engines by its own
+    # per-channel calls) and 1-4 channels: counts, totals and delay do not depend on them
+    dt = rng.chance(.35)
+    cfg, env = cr.gen_config(rng, rates=GRID[idx] if idx < len(GRID) else None, datatypes=dt, channels=dt)
     N = rng.choice([0, 1, 2, 3, 17, 100, 1000, 4096, 30000]) if rng.chance(.5) else rng.below(60000 if quick else 400000)
     cap = 250000 if quick else 3000000          # keep the output stream of one job bounded
     N = min(N, int(cap * max(1.0, cr.io_ratio(cfg))), int(cap * cr.io_ratio(cfg)) + 3)
